@@ -3,8 +3,10 @@
 
    [idk] is the id GetID() derives from a public key (uninterpreted: every
    theorem holds for every such function).  [fx] selects the variant of the
-   filter: [false] = pinned code (consults the self-declared ID field),
-   [true] = with proposed_fixes/C17-F25.diff (consults the key-derived id).
+   filter: [false] = the code before the repair of F25 (consulted the self-declared
+   ID field), [true] = /repo now, after commit ff36148 "fix: valid peers are
+   filtered on the id derived from the public key" (consults the key-derived id);
+   the correspondence compares /repo with [true] (Corr/C17.v code_fixed_F25).
    Histories are arbitrary lists of operations; [outs idk fx ops] are the
    outcomes, position by position; a connection is named by the position of
    the operation that offered it. *)
@@ -158,7 +160,7 @@ Theorem c17_fixed_model_satisfies_property : forall idk ops,
 Proof. exact fixed_model_satisfies_property. Qed.
 Print Assumptions c17_fixed_model_satisfies_property.
 
-(* ... the pinned variant does on every history in which neither a dialling
+(* ... the pre-repair variant ([fx = false]) does on every history in which neither a dialling
    peer nor a caller of set presents an ID field differing from the key's id
    (the complement of defect F25), where it coincides with the fixed one ... *)
 Theorem c17_pinned_model_satisfies_property_when_honest : forall idk ops,
@@ -176,7 +178,7 @@ Example c17_honest_history_example :
 Proof. exact honest_history_example. Qed.
 Print Assumptions c17_honest_history_example.
 
-(* ... and F25: the pinned variant is refuted.  The valid set holds key 0 only;
+(* ... and F25: the pre-repair variant is refuted (kept as regression witness).  The valid set holds key 0 only;
    key 1 is refused when honest, accepted when it declares key 0's id, and its
    message is dispatched; the fixed variant refuses it. *)
 Theorem c17_declared_id_bypass_refuted :
